@@ -54,6 +54,15 @@ TABLE = [
  ("S54-C09-buddy-index-tree-huge-1", "C09g", "C09", "geometry tree_huge_1 only: untargeted get of HUGE_ORDER indexes children[i ^ 1]", "C09 quick: VIOLATION after adding the other geometries to the quick tier (seq/th1: index out of bounds); C09 thorough before that", "missed by the first C09 quick plan (default + tree_huge_2 only; the thorough tier had all geometries): quick now runs one shard each of tree_huge_1, tree_huge_8 and 16K (C06/C07/C08/C11/C17 also 16K+tree_huge_2)"),
  ("S55-C06-tree-mask-huge-order-plus-2", "C06g", "C06", "TREE_HUGE != 4 (tree_huge_2: counts like 1537; tree_huge_8: frames % 4096 >= 2048)", "C06 quick: VIOLATION (init/th2)", ""),
  ("S56-C21-get-at-retries-counter", "C21c", "C21", "thread frozen between bitfield toggle and counter update in the same huge frame; a targeted small get of zero bits run alone retries the counter decrement forever", "C21 quick: VIOLATION (solo mode: step budget exceeded)", ""),
+ ("S57-C14-partial-last-tree-size", "C14c", "C14", "memory size that is not a multiple of the tree size: the unmanaged slots of the partial last tree are counted in no class", "C14 quick: VIOLATION (seq: sum over classes)", ""),
+ ("S58-C09-allocall-partial-huge-marker", "C09d", "C09", "Init::AllocAll with a frame count not divisible by 512, then a base-order put into the partial last huge frame (stored as huge with a filled bitfield): panic `Exceeding retries`", "C09 quick: VIOLATION (seq: call panicked)", ""),
+ ("S59-C03-get-at-undo-store", "C03d", "C03", "failing targeted small get (bits taken) whose counter undo is a plain store racing another thread's allocation in the same huge frame (lost decrement); shows when the held frames are freed", "C03 quick: VIOLATION (sched/free-running: put of a held block fails / Inc failed)", ""),
+ ("S60-C16-threshold-is-best", "C16c", "C16", "search with more than N imperfect candidates where a candidate that belongs in the top N but is not the new best arrives after the buffer filled", "C16 quick: VIOLATION (sortmon: search_best access order)", ""),
+ ("S61-C01-toggle-int-retry-without-recheck", "C01d", "C01", "targeted allocation of order 3-6 whose group is free at load time while another thread allocates inside the same group before the compare-exchange (retry XORs the winner's bits)", "C01 quick: VIOLATION (sched target-same: returned block overlaps a held block)", ""),
+ ("S62-C07-active-flag-rebuild", "C07c", "C07", "hand-off while every present slot of some class has local counter 0; later a put into that slot and a get that must steal from / demote exactly that slot", "C07 quick: VIOLATION (handoff: continuation diverges)", ""),
+ ("S63-C20-time-whole-seconds", "C20c", "C20", "trace with two CPU pages where an allocation sits in a later page than its free and both fall into the same whole second (sort key collapses)", "C20 quick: VIOLATION (tracemon: replay order differs from the trace)", ""),
+ ("S64-C08-overlap-asymmetric", "C08c", "C08", "one metadata buffer strictly inside another in the directions local-in-trees, trees-in-lower, lower-in-local", "C08 quick: VIOLATION (invalid buffers: `lower contains trees` accepted) - by the memory-order/containment cases added shortly before this change was tried; the earlier buffer cases had only the opposite containment direction", ""),
+ ("S65-C03-steal-from-reserved-tree", "C03c", "C03", "three threads: A (huge request) delayed between the search's load of a class-0 tree T and its CAS; B reserves T; C frees a huge frame inside T; A's steal is treated as a reservation", "C03 quick: VIOLATION (sched: panic `Unreserve failed`)", ""),
 ]
 
 def main():
